@@ -1,24 +1,35 @@
-"""Per-property configuration of bin/check: static parts of the trusted base and assumptions.
+"""Per-property configuration of bin/check. One JSON file per claimed property in bin/props.d/
+(keys: level_text, level_note, trusted_base, assumptions, optional technique, design_ref, coqchk,
+claimed). An optional bin/props.d/<ID>_pre.py may define pre(prop, tier, seed, outdir, evidence,
+lines) -> exit code contribution, run before the harness (used by checks with a generated Coq file).
 Everything measured (counts, theorem names, Print Assumptions output) is produced by the run."""
+import glob
+import importlib.util
+import json
+import os
+
+HERE = os.path.dirname(os.path.abspath(__file__))
 
 COMMON_ASSUMPTIONS = [
     "the hand-written Gallina model is the code only as far as this run's correspondence check shows (generated inputs listed under coverage)",
     "harness code (generators, Gallina term printer, observation of the library through its exported API) is trusted",
 ]
-
 HOOK_COMMITS = []
 NOT_APPLICABLE = {}
 
-PROPS = {
-    "C17": {
-        "level_text": "Theorems (Props/C17.v, no axioms): for every pair of well-formed values of one format, Compare has the sign of the mathematical comparison of what they denote (all signed/unsigned widths over the whole range, decimal as m*2^e, byte-lexicographic strings, enum ids, booleans); antisymmetry, transitivity, zero-iff-same-denotation; Equal decides an equivalence; CompareVals is lexicographic. Unbounded over the model; the model is tied to the code by exhaustive 8-bit tables (131072 pairs), boundary-set tables of the wider formats, random tuples and keyed lookups on Reflect/Node slice lists, all classified by vm_compute each run.",
-        "level_note": "Trusted: Coq kernel+vm_compute; hand-written model (Val/Model.v) tied by differential check only; IEEE sign-of-difference fact; sort.Sort abstracted; harness code. Lookup theorems: see evidence theorems list.",
-        "trusted_base": [
-            "model Val/Model.v hand-written from val/types.go, val/util.go, nodeutil/reflect.go (sliceSorter), nodeutil/node_slice.go (findByKey)",
-            "IEEE-754: for finite float64 x,y the sign of the float result x-y is the sign of the exact difference (Decimal64.Compare); math.Frexp decomposition in the harness",
-            "Go sort.Sort abstracted as 'yields the sorted permutation' (insertion sort is the executable representative); sort.Search transcribed",
-            "strings.Compare / bytes.Compare modelled as bytewise lexicographic comparison",
-        ],
-        "assumptions": ["enum ids within int32 (YANG enum value range); decimal64 values finite"],
-    },
-}
+PROPS = {}
+for path in sorted(glob.glob(os.path.join(HERE, "props.d", "C*.json"))):
+    pid = os.path.basename(path)[:-5]
+    PROPS[pid] = json.load(open(path))
+    pre = os.path.join(HERE, "props.d", pid + "_pre.py")
+    if os.path.exists(pre):
+        spec = importlib.util.spec_from_file_location(pid + "_pre", pre)
+        mod = importlib.util.module_from_spec(spec)
+        spec.loader.exec_module(mod)
+        PROPS[pid]["pre"] = mod.pre
+hooks = os.path.join(os.path.dirname(HERE), "MANIFEST.hooks")
+if os.path.exists(hooks):
+    for line in open(hooks):
+        line = line.strip()
+        if line.startswith("commit:"):
+            HOOK_COMMITS.append(line.split(":", 1)[1].strip())
